@@ -22,6 +22,11 @@
 (*   EndCommit body returned nil: Commit of every dirty handle (publish, release)   *)
 (*   EndAbort  body returned ErrCriticalSectionAborted: Abort (restore, release)    *)
 (*   Obs       GetState() by a sharer that holds nothing (blocking acquire)         *)
+(*   EndDie    body returned a fatal error (failed assertion, failing resource):     *)
+(*             MPCalContext.Run returns it WITHOUT abort(), then Close()s the        *)
+(*             resources; localShared.Close() does nothing: the sharer is gone       *)
+(*             (ph = "dead"), its locks stay taken for ever, the working copy keeps  *)
+(*             the uncommitted writes -- which nobody can read any more              *)
 (*                                                                                 *)
 (* The module is used three ways (same pattern as spec/C01/CritSec.tla):           *)
 (*  1. exhaustively: the design (timed strict 2PL) implies the property: ghost      *)
@@ -48,7 +53,9 @@ CONSTANTS
   MaxWait,    \* bound on simultaneous waiters per lock (generator only; exhaustive runs use NA)
   UniqueVals, \* TRUE: every write writes a fresh tag (a * 100 + k); FALSE: writes 0
   Ghost,      \* TRUE: maintain log/ser/bad
-  Mut,        \* "none" or the name of a deliberately broken design (vacuity guards)
+  Mut,        \* "none" or the name of a deliberately broken design (vacuity guards);
+              \* "close-restore" is a different but property-preserving design of Close()
+  MaxDie,     \* bound on the number of sharers that die inside a section (0: nobody dies)
   EdgeFile    \* "" or the ndjson file the labelled edges go to
 
 Arch == 1..NA
@@ -71,7 +78,7 @@ Emit(act) ==
   IF EdgeFile = "" THEN TRUE
   ELSE CSVWrite("%1$s", <<ToJson([from |-> ToString(<<lock, ph, WSig(want), nops, wq>>),
                                    to   |-> ToString(<<lock', ph', WSig(want'), nops', wq'>>),
-                                   idle |-> (\A a \in Arch : ph'[a] = "idle"),
+                                   idle |-> (\A a \in Arch : ph'[a] \in {"idle", "dead"}),
                                    act  |-> act])>>, EdgeFile)
 
 InitWith(f, v0) ==
@@ -175,6 +182,26 @@ EndCommit(a) ==
 
 EndAbort(a) == ph[a] = "open" /\ MayEnd(a) /\ AbortEffect(a)
 
+(* The body returned an error that is neither nil nor ErrCriticalSectionAborted: Run returns   *)
+(* it without Commit and without Abort and closes the sharer's resources. The pinned tree's     *)
+(* localShared.Close() is empty: every lock the sharer holds stays taken for ever (waiters and  *)
+(* later sections of the survivors can only time out, GetState() blocks), val keeps the         *)
+(* uncommitted writes, old the last committed value. Nobody waits for a dying sharer to         *)
+(* release (it does not), so MayEnd is not required.                                            *)
+(*   Mut = "close-release": Close() gives the lock up and leaves val as it is (seed C07-A);     *)
+(*   Mut = "close-restore": Close() does what Abort does (restore, release) -- also correct.    *)
+Dead == {a \in Arch : ph[a] = "dead"}
+EndDie(a) ==
+  /\ ph[a] = "open" /\ Cardinality(Dead) < MaxDie
+  /\ IF Mut \in {"close-release", "close-restore"}
+     THEN /\ val' = IF Mut = "close-release" THEN val
+                    ELSE [c \in Cells |-> IF lk[c] \in HeldBy(a) THEN old[c] ELSE val[c]]
+          /\ \E nh \in Handovers(a) : lock' = Released(a, nh)
+     ELSE UNCHANGED <<val, lock>>
+  /\ ph' = [ph EXCEPT ![a] = "dead"]
+  /\ log' = [log EXCEPT ![a] = <<>>] /\ nops' = [nops EXCEPT ![a] = 0]
+  /\ UNCHANGED <<lk, old, want, nsec, nw, ser, bad, wq>>
+
 ObsOK(m) == lock[m] = 0
 
 NextVal(a) == IF UniqueVals THEN a * 100 + nw[a] + 1 ELSE 0
@@ -187,11 +214,14 @@ AGrant(a)      == Grant(a) /\ Emit([t |-> "grant", a |-> a])
 ATimeout(a)    == Timeout(a) /\ Emit([t |-> "timeout", a |-> a])
 ACommit(a)     == EndCommit(a) /\ Emit([t |-> "end", a |-> a, how |-> "commit"])
 AAbort(a)      == EndAbort(a) /\ Emit([t |-> "end", a |-> a, how |-> "abort"])
+ADie(a)        == EndDie(a) /\ Emit([t |-> "die", a |-> a])
 AObs(m)        == ObsOK(m) /\ EdgeFile # "" /\ UNCHANGED vars /\ Emit([t |-> "obs", m |-> m])
-Finished       == (\A a \in Arch : ph[a] = "idle" /\ MaxSec # 0 /\ nsec[a] = MaxSec) /\ UNCHANGED vars
+Finished       == /\ MaxSec # 0
+                  /\ \A a \in Arch : ph[a] = "dead" \/ (ph[a] = "idle" /\ nsec[a] = MaxSec)
+                  /\ UNCHANGED vars
 
 Next ==
-  \/ \E a \in Arch : ABegin(a) \/ AGrant(a) \/ ATimeout(a) \/ ACommit(a) \/ AAbort(a)
+  \/ \E a \in Arch : ABegin(a) \/ AGrant(a) \/ ATimeout(a) \/ ACommit(a) \/ AAbort(a) \/ ADie(a)
   \/ \E a \in Arch, k \in {"r", "w"}, c \in Cells : AAcc(a, k, c) \/ ABlock(a, k, c)
   \/ \E m \in Locks : AObs(m)
   \/ Finished
@@ -200,7 +230,7 @@ Spec == Init /\ [][Next]_vars
 
 (* --------------------------------------------------------------------- properties *)
 TypeOK ==
-  /\ lock \in [Locks -> 0..NA] /\ ph \in [Arch -> {"idle", "open", "wait"}]
+  /\ lock \in [Locks -> 0..NA] /\ ph \in [Arch -> {"idle", "open", "wait", "dead"}]
   /\ \A a \in Arch : (ph[a] = "wait") <=> (want[a] # NoReq)
 
 (* C07, first sentence: every committing section is consistent with the serial store at *)
@@ -209,8 +239,13 @@ Serializable == ~bad
 (* whatever is not locked shows exactly the serial (committed) state: aborted sections  *)
 (* left no effect, committed ones all of theirs (invariants over several variables).    *)
 QuiescentAgree == \A c \in Cells : lock[lk[c]] = 0 => (val[c] = old[c] /\ (Ghost => old[c] = ser[c]))
-(* locks are held by sections in flight only (released in Commit/Abort) *)
-NoLeak == \A m \in Locks : lock[m] # 0 => ph[lock[m]] \in {"open", "wait"}
+(* locks are held by sections in flight only (released in Commit/Abort) -- or, for ever, by a *)
+(* sharer that died inside its section (pinned tree; the two Close() variants release)       *)
+NoLeak == \A m \in Locks : lock[m] # 0 =>
+             (ph[lock[m]] \in {"open", "wait"} \/ (ph[lock[m]] = "dead" /\ Mut = "none"))
+(* what a section that ended in a fatal error wrote stays behind its lock: a cell whose working *)
+(* copy differs from the committed value is locked (by a section in flight or by the dead)      *)
+DeadInvisible == \A c \in Cells : val[c] # old[c] => lock[lk[c]] # 0
 (* C07, second sentence: a blocked acquisition always has a way out *)
 NoIndefiniteBlock == \A a \in Arch : ph[a] = "wait" => (lock[lk[want[a].c]] \in {0, a} \/ Timeouts)
 =============================================================================
